@@ -23,7 +23,7 @@ def explore(ck):
     r = ck.rng; quick = ck.tier == 'quick'
     ck.rule = ('(a) in-process script-eval hook with catch_unwind, debug AND release profile, on a hostile stream (truncated pushes of every width incl. cuts inside the length field, PUSHDATA4 lengths up to '
                '2^32-1, all leading opcodes, 255..3000 pushes, invalid UTF-8 after OP_RETURN, witness look-alikes with illegal lengths, scripts > 10000 bytes, random bytes) on all 8 coins: no PANIC answer, '
-               'verdict = model; (b) black-box: 8 coins x 5 callbacks x verbosity (default, -v, -vv) on chains carrying these byte strings as scriptPubKey, scriptSig and witness items of an otherwise valid chain: exit 0, output = model, and '
+               'verdict = model; (b) black-box: 8 coins x 5 callbacks x verbosity (default, -v, -vv) on chains carrying these byte strings as scriptPubKey, scriptSig, witness items and as the coinbase input script of blocks of version 1, 2, 3, 4, 0x20000000, 0xffffffff of an otherwise valid chain: exit 0, output = model, and '
                'all rows not derived from the field equal the clean run (frame). Non-trivial: the byte string is not classified NotRecognised by the reference or is a one-step mutation of a template; '
                'distinct by (coin, script bytes).')
     S = hostile(r, not quick)
@@ -35,8 +35,11 @@ def explore(ck):
     pick = [s for t, s in S if len(s) < 5000]
     for i, coin in enumerate(gen.ALL_COINS):
         base_blocks = gen.random_chain(r, coin, 3, max_tx=2, script_kinds=['p2pkh', 'p2sh'], segwit_p=0)
-        for field in ['scriptPubKey', 'scriptSig', 'witness']:
+        for field in ['scriptPubKey', 'scriptSig', 'witness', 'coinbase']:
             hs = r.sample(pick, 6)
+            if field == 'coinbase':
+                # the input script of the coinbase of blocks of version 2 and above (where BIP34 puts the height): complete and truncated direct pushes of 1..75 bytes, PUSHDATA forms, small-integer opcodes, nothing
+                hs += [bytes([n]) + gen.rb(r, n) for n in (1, 3, 8, 9, 20, 33, 75)] + [bytes([75]) + gen.rb(r, 10), bytes([9]) + gen.rb(r, 8), b'\x4c\x14' + gen.rb(r, 20), b'\x4d\x14\x00' + gen.rb(r, 20), b'', b'\x00', b'\x51', b'\x60', b'\x4f', b'\x08' + b'\xff' * 8, b'\x09' + b'\xff' * 9]
             if field in ('scriptPubKey', 'scriptSig'):
                 hs.append(gen.rb(r, [65535, 65534, 65536, 253][i % 4]))       # a length on a CompactSize width boundary (the txid commits to the length bytes as stored)
             if field == 'scriptPubKey':
@@ -49,6 +52,11 @@ def explore(ck):
             # block 1 gets one extra transaction whose field carries the hostile bytes; the clean twin carries harmless bytes of the same role
             def build(payloads):
                 blocks = []; prev = b'\x00' * 32
+                if field == 'coinbase':
+                    for h, x in enumerate(payloads):
+                        ver = [2, 4, 0x20000000, 1, 0xffffffff][h % 5] if COINS[coin]['aux'] is None else [2, 3, 4, 1][h % 4]
+                        nb = Block(prev, [Tx([(b'\x00' * 32, 0xffffffff, x, 0xffffffff)], [(50 * 10**8, P2PKH(bytes([h % 256]) * 20))])], time=1400000000 + h, version=ver); blocks.append(nb); prev = nb.hash
+                    return blocks
                 for h, b in enumerate(base_blocks):
                     txs = list(b.txs)
                     if h == 1:
